@@ -87,9 +87,9 @@ def check_keys(ctx):
     fcr = ctx.fn('types:Model.create_reaction')
     rebuilt = set()
     for n in ast.walk(fcr):
-        if isinstance(n, ast.If) and k(src(n.test)) in ("'species'notinpropensity_param_dictandpropensity_type=='massaction'",
-                                                         "propensity_type=='massaction'and'species'notinpropensity_param_dict"):
-            if any(k(util.stmt_key(x)).startswith("propensity_param_dict['species']=") for x in ast.walk(n) if isinstance(x, ast.stmt)):
+        if isinstance(n, ast.Assign) and k(src(n.targets[0])) == "propensity_param_dict['species']":
+            g = util.guards_of(n, fcr)
+            if g == {"'species'not inpropensity_param_dict", "'massaction'==propensity_type"}:
                 rebuilt.add('species')
     for ptype, keys in sorted(req.items()):
         if ptype == 'general':
@@ -130,10 +130,13 @@ def check_keys(ctx):
             dreq.add(c.args[1].value)
     handled = set()
     for n in ast.walk(fr):
-        if isinstance(n, ast.If) and isinstance(n.test, ast.Compare) and src(n.test.left) == 'k' and isinstance(n.test.comparators[0], ast.Constant) \
-                and isinstance(n.test.ops[0], ast.Eq):
-            key = n.test.comparators[0].value
-            body = [k(util.stmt_key(x)) for x in n.body]
+        if not isinstance(n, ast.If):
+            continue
+        keys = util.eq_literals(n.test, 'k')
+        if not keys:
+            continue
+        body = [k(util.stmt_key(x)) for x in n.body]
+        for key in keys:
             if body in (['delay_params[k]=v'], ["delay_params['%s']=v" % key]):
                 handled.add(key)
             if key == 'type' and body == ['delay_type=v']:
@@ -234,14 +237,25 @@ def check_exhaustive(ctx, fw, far):
 def check_forwarding(ctx):
     f = ctx.fn('types:Model.generate_sbml_model')
     txt = [k(util.stmt_key(s)) for s in ast.walk(f) if isinstance(s, ast.stmt)]
-    need = ['sorted_params=list(self.get_param_list())', 'forpinsorted_params:', 'sorted_species=list(self.get_species())', 'forsinsorted_species:',
-            'forrxn_tupleinself.reaction_definitions:', 'forrule_tupleinself.rule_definitions:',
-            'reactants,products,propensity_type,propensity_param_dict,delay_type,delay_reactants,delay_products,delay_param_dict=rxn_tuple',
+    need = ['reactants,products,propensity_type,propensity_param_dict,delay_type,delay_reactants,delay_products,delay_param_dict=rxn_tuple',
             'rule_type,rule_dict,rule_frequency=rule_tuple', 'add_rule(model,rule_id,rule_type,rule_variable,rule_formula,rule_frequency)',
             "delay_dict={'type':delay_type,'reactants':delay_reactants,'products':delay_products,'parameters':delay_param_dict}"]
-    heads = [k(src(s).split('\n')[0]) for s in ast.walk(f) if isinstance(s, ast.For)]
-    allt = txt + heads
-    miss = [n for n in need if n not in allt and not any(t.startswith(n) for t in allt)]
+    miss = [n for n in need if n not in txt]
+    # the four loops run over the complete collections (sorting / enumerating / copying them is immaterial)
+    defs = util.single_defs(f)
+
+    def source(n):
+        for _ in range(6):
+            n = util.resolve_alias(n, defs)
+            if isinstance(n, ast.Call) and src(n.func) in ('enumerate', 'sorted', 'list', 'tuple') and len(n.args) == 1 and not n.keywords:
+                n = n.args[0]
+            else:
+                break
+        return k(src(n))
+    sources = [source(lp.iter) for lp in ast.walk(f) if isinstance(lp, ast.For)]
+    for want_src in ('self.get_param_list()', 'self.get_species()', 'self.reaction_definitions', 'self.rule_definitions'):
+        if want_src not in sources:
+            miss.append('no loop over all of %s (loops run over %s)' % (want_src, sources))
     calls = util.calls_in(f, suffix='add_reaction')
     ok = len(calls) == 1 and [src(a) for a in calls[0].args] == ['model', 'reactants', 'products', 'rxn_id', 'propensity_type', 'propensity_param_dict'] and \
         {kw.arg: src(kw.value) for kw in calls[0].keywords} == {'stochastic': 'stochastic_model', 'delay_annotation_dict': 'delay_dict'}
